@@ -19,7 +19,8 @@ CONSTANTS Template,   \* module record; the body of function GenIdx is the hole
           ArgSets,    \* set of argument vectors for the entry function
           HostQ,      \* scripted host results
           Fuel,       \* step bound for the reference run
-          SignExt     \* are sign-extension operators admitted
+          SignExt,    \* are sign-extension operators admitted
+          WithBad     \* also emit minimal ill-typed bodies and truncated bodies (C09)
 
 VARIABLES body, vs, phase
 
@@ -48,7 +49,27 @@ Gen(ins) ==
      /\ vs' = v2
      /\ phase' = IF v2.closed THEN "done" ELSE "gen"
 
-GNext == \E ins \in Alphabet : Gen(ins)
+(* C09: a valid prefix extended by one instruction the validation algorithm rejects; all open
+   frames are then closed syntactically so that the rejection has to come from typing *)
+RECURSIVE Ends(_)
+Ends(n) == IF n = 0 THEN <<>> ELSE <<[op |-> "end"]>> \o Ends(n - 1)
+
+GenBad(ins) ==
+  /\ WithBad /\ phase = "gen"
+  /\ Len(body) + 1 <= MaxLen
+  /\ ~VStep(GenCtx, vs, ins).ok
+  /\ body' = Append(body, ins) \o Ends(Len(vs.cs) + (IF ins.op \in {"block", "loop", "if"} THEN 1 ELSE 0)
+                                       - (IF ins.op = "end" THEN 1 ELSE 0))
+  /\ vs' = vs
+  /\ phase' = "bad"
+
+(* C09: a body whose frames are not all closed *)
+GenTrunc ==
+  /\ WithBad /\ phase = "gen" /\ body # <<>>
+  /\ UNCHANGED <<body, vs>>
+  /\ phase' = "trunc"
+
+GNext == \E ins \in Alphabet : Gen(ins) \/ GenBad(ins) \/ GenTrunc
 
 GSpec == GInit /\ [][GNext]_gvars
 
@@ -62,5 +83,12 @@ RunsOf(M) ==
 
 (* the template is printed once, each complete program as its generated body plus expected outcomes *)
 ASSUME PrintT(<<"TEMPLATE", ToJson([m |-> Template, gen |-> GenIdx - 1, entry |-> EntryIdx - 1, hostq |-> HostQ])>>)
-Export == phase = "done" => PrintT(<<"REPLAY", ToJson([body |-> body, runs |-> RunsOf(Module)])>>)
+Export ==
+  /\ phase = "done" => PrintT(<<"REPLAY", ToJson([body |-> body, valid |-> TRUE, runs |-> RunsOf(Module)])>>)
+  /\ phase \in {"bad", "trunc"} => PrintT(<<"REPLAY", ToJson([body |-> body, valid |-> FALSE, why |-> phase, runs |-> <<>>])>>)
+
+(* the generator agrees with the recogniser: what it completes is valid, what it marks bad is not *)
+GenAgreesWithValidator ==
+  /\ phase = "done" => ValidBody(GenCtx, body)
+  /\ phase \in {"bad", "trunc"} => ~ValidBody(GenCtx, body)
 =============================================================================
